@@ -164,6 +164,7 @@ type childOut struct {
 	Mismatches []string   `json:"mismatches"`
 	MaxOverlap int32      `json:"max_overlap"`
 	Calls      int        `json:"calls"`
+	Reps       int        `json:"reps"`
 	After      []string   `json:"after"` // mismatches of a sequential pass after the concurrent phase
 }
 
@@ -184,6 +185,7 @@ type shared struct {
 	opts     []solver.Option
 	inflight int32
 	maxOver  int32
+	done     int64 // completed calls: the watchdog's notion of progress
 }
 
 func errClass(err error) string {
@@ -218,6 +220,7 @@ func (sh *shared) do(c Call, n int) Result {
 			break
 		}
 	}
+	defer atomic.AddInt64(&sh.done, 1)
 	defer atomic.AddInt32(&sh.inflight, -1)
 	var r Result
 	deterministic := !sh.s.Commit && !sh.s.Lookup // a lookup table commits through multicommit: the placeholder commitment is random in a plain Solve
@@ -360,6 +363,43 @@ func childMain(path string) {
 		sh.plproof = append(sh.plproof, pp)
 	}
 	out := childOut{}
+	stop := make(chan struct{})
+	var bg sync.WaitGroup
+	// Watchdog. A wedge is the absence of progress, not slowness: no call has
+	// completed for noProgress, and then, with the background load stopped, the
+	// process burns (almost) no CPU for a further window, i.e. every goroutine
+	// of the pending calls is blocked. A loaded machine slows calls down but
+	// they keep consuming CPU, so load alone can never produce this verdict.
+	var stopOnce sync.Once
+	stopBG := func() { stopOnce.Do(func() { close(stop) }) }
+	go func() {
+		last, lastAt := atomic.LoadInt64(&sh.done), time.Now()
+		for {
+			time.Sleep(time.Second)
+			if d := atomic.LoadInt64(&sh.done); d != last {
+				last, lastAt = d, time.Now()
+				continue
+			}
+			if time.Since(lastAt) < noProgress {
+				continue
+			}
+			stopBG()
+			time.Sleep(5 * time.Second) // let the background goroutines drain
+			c0 := cpuTime()
+			time.Sleep(idleWindow)
+			if atomic.LoadInt64(&sh.done) != last {
+				last, lastAt = atomic.LoadInt64(&sh.done), time.Now()
+				continue
+			}
+			if used := cpuTime() - c0; used < idleCPU {
+				buf := make([]byte, 1<<20)
+				buf = buf[:runtime.Stack(buf, true)]
+				fmt.Fprintf(os.Stderr, "CHILD-WEDGED no call completed for %v and the process used %v of CPU in the last %v\n%s\n", time.Since(lastAt).Round(time.Second), used, idleWindow, buf)
+				os.Exit(7)
+			}
+			lastAt = time.Now() // busy, not blocked: keep waiting (the parent bounds the total)
+		}
+	}()
 	// sequential baseline
 	seq := func() [][]Result {
 		var res [][]Result
@@ -375,8 +415,6 @@ func childMain(path string) {
 	out.Baseline = seq()
 	atomic.StoreInt32(&sh.maxOver, 0)
 	// background activity on OTHER circuit values
-	stop := make(chan struct{})
-	var bg sync.WaitGroup
 	if s.Background {
 		for k := 0; k < 2; k++ {
 			bg.Add(1)
@@ -398,7 +436,9 @@ func childMain(path string) {
 			}(k)
 		}
 	}
-	for rep := 0; rep < s.Reps; rep++ {
+	repsUntil := time.Now().Add(repBudget)
+	for rep := 0; rep < s.Reps && (rep == 0 || time.Now().Before(repsUntil)); rep++ {
+		out.Reps++
 		var wg sync.WaitGroup
 		start := make(chan struct{})
 		res := make([][]Result, len(s.Routines))
@@ -423,7 +463,7 @@ func childMain(path string) {
 			}
 		}
 	}
-	close(stop)
+	stopBG()
 	bg.Wait()
 	out.MaxOverlap = atomic.LoadInt32(&sh.maxOver)
 	// history: a sequential pass after everything must still equal the baseline
@@ -442,7 +482,22 @@ func childMain(path string) {
 	os.Exit(0)
 }
 
-const childBound = 75 * time.Second
+const (
+	childBound = 8 * time.Minute  // total bound of one child: exceeding it is INCONCLUSIVE (slow), never a violation
+	repBudget  = 30 * time.Second // repetitions stop being started after this long (the count is a budget, not part of the scenario)
+	noProgress = 45 * time.Second // no completed call for this long arms the wedge probe
+	idleWindow = 15 * time.Second // probe window
+	idleCPU    = 300 * time.Millisecond
+)
+
+// cpuTime is the user+system CPU time consumed by this process so far.
+func cpuTime() time.Duration {
+	var ru syscall.Rusage
+	if syscall.Getrusage(syscall.RUSAGE_SELF, &ru) != nil {
+		return 0
+	}
+	return time.Duration(ru.Utime.Nano() + ru.Stime.Nano())
+}
 
 // runChild executes the scenario in a child process. kind: ok | crash | race | wedge | setup.
 func runChild(s Scenario) (out childOut, kind string, detail string) {
@@ -472,9 +527,17 @@ func runChild(s Scenario) (out childOut, kind string, detail string) {
 			_ = cmd.Process.Kill()
 			<-done
 		}
-		return out, "wedge", tail(stderr.String(), 3000)
+		return out, "slow", tail(stderr.String(), 1500)
 	}
 	se := stderr.String()
+	if strings.Contains(se, "CHILD-WEDGED") {
+		i := strings.Index(se, "CHILD-WEDGED")
+		d := se[i:]
+		if len(d) > 6000 {
+			d = d[:6000] + "…"
+		}
+		return out, "wedge", d
+	}
 	if strings.Contains(se, "WARNING: DATA RACE") {
 		return out, "race", tail(se, 4000)
 	}
@@ -516,9 +579,11 @@ func run(s Scenario, rec *ev.Recorder) ev.Outcome {
 			again++
 		}
 		if again >= 1 {
-			return ev.Outcome{Violation: fmt.Sprintf("calls on the shared objects did not finish within %v in 2 of 2 runs (they normally take a few seconds in total); goroutine dump:\n%s", childBound, detail)}
+			return ev.Outcome{Violation: fmt.Sprintf("calls on the shared objects never return (2 of 2 runs): no call completed for %v and the process sat idle, every pending call blocked; goroutine dump:\n%s", noProgress, detail)}
 		}
-		return ev.Outcome{Discard: true, DiscardWhy: "single slow run (did not reproduce)"}
+		return ev.Outcome{Discard: true, DiscardWhy: "single blocked run (did not reproduce)"}
+	case "slow":
+		return ev.Outcome{Discard: true, DiscardWhy: "child exceeded its time bound while still making progress (inconclusive)"}
 	}
 	// sanity of the baseline itself: satisfying witnesses solve, unsatisfying do not
 	for g, calls := range s.Routines {
